@@ -85,6 +85,16 @@ MUTANTS = [
 ]
 
 EQUIVALENT = [
+ # a CORRECT cache of include texts, validated by (device, inode, size, mtime_ns): found by the
+ # third review to be blamed when faults were addressed by ordinal and invisible to stat()
+ ("eq_stat_validated_include_text_cache", "C12", [(L, "        cwd = os.path.dirname(filename)\n        data = antlr4.FileStream(filename)\n",
+        "        cwd = os.path.dirname(filename)\n        st_ = os.stat(filename)\n        sig = (st_.st_dev, st_.st_ino, st_.st_size, st_.st_mtime_ns)\n        hit = _TEXT_CACHE.get(os.path.realpath(filename))\n        if hit is not None and hit[0] == sig:\n            data = antlr4.InputStream(hit[1])\n        else:\n            data = antlr4.FileStream(filename)\n            _TEXT_CACHE[os.path.realpath(filename)] = (sig, data.strdata)\n"),
+     (L, "def is_ptype(p):", "_TEXT_CACHE = {}\n\n\ndef is_ptype(p):")]),
+ ("eq_stat_validated_include_text_cache", "C07", [(L, "        cwd = os.path.dirname(filename)\n        data = antlr4.FileStream(filename)\n",
+        "        cwd = os.path.dirname(filename)\n        st_ = os.stat(filename)\n        sig = (st_.st_dev, st_.st_ino, st_.st_size, st_.st_mtime_ns)\n        hit = _TEXT_CACHE.get(os.path.realpath(filename))\n        if hit is not None and hit[0] == sig:\n            data = antlr4.InputStream(hit[1])\n        else:\n            data = antlr4.FileStream(filename)\n            _TEXT_CACHE[os.path.realpath(filename)] = (sig, data.strdata)\n"),
+     (L, "def is_ptype(p):", "_TEXT_CACHE = {}\n\n\ndef is_ptype(p):")]),
+ # deepcopy that rebuilds operation dicts in another key order (content and dumps identical)
+ ("eq_deepcopy_reorders_operation_keys", "C13", [(P, "    def __len__(self):", "    def __deepcopy__(self, memo):\n        new = BlackbirdProgram.__new__(BlackbirdProgram)\n        memo[id(self)] = new\n        for k_, v_ in self.__dict__.items():\n            setattr(new, k_, copy.deepcopy(v_, memo))\n        new._operations = [dict((k_, o[k_]) for k_ in ('op', 'modes', 'args', 'kwargs') if k_ in o) for o in new._operations]\n        return new\n\n    def __len__(self):")]),
  # looked like a regression, is not one: the arrays in `variables` are re-copied later in __call__
  ("eq_call_shallow_copy_of_variables", "C13", [(P, "        prog = copy.deepcopy(self)\n", "        prog = copy.copy(self)\n        prog._operations = copy.deepcopy(self._operations)\n        prog._var = dict(self._var)\n        prog._target = copy.deepcopy(self._target)\n        prog._type = copy.deepcopy(self._type)\n        prog._modes = set(self._modes)\n")]),
  # correct code whose cleanup lives only in a finally block: an injected interruption must
